@@ -632,3 +632,7 @@ mod tests {
         ));
     }
 }
+
+#[cfg(all(test, feature = "pendulum_project_ntpd_rs_verif"))]
+#[path = "../../../../../verif/harness/ntp_proto/packet_v5.rs"]
+mod verif_packet_v5;
